@@ -117,6 +117,11 @@ def tag_list(quick):
              "builtins.Exception.__init__", "builtins.BaseException.with_traceback", "Pyro5.errors.PyroError.__init__", "Pyro5.errors.__builtins__"]
     tags += ["Pyro5.util.PickleSerializer", "Pyro5.util.Serializer", "Pyro5.util.serpentSerializer", "Pyro5.util.os.systemSerializer", "Pyro5.util.SerializerBase",
              "Pyro5.util.AppSerializer", "Pyro5.utils.SerpentSerializer", "Pyro5.serializers.SerpentSerializer"]
+    # legacy / alias spellings of the builtins namespace (all carry a double underscore or are simply unknown)
+    for n in ("ValueError", "SystemExit", "KeyboardInterrupt", "Exception", "OSError", "eval"):
+        tags += ["__builtin__." + n, "__builtins__." + n, "__main__." + n, "builtin." + n, "_builtins." + n, "exceptions__." + n, "builtins.__builtins__." + n]
+    # application subclasses of Pyro's own serialisable classes that are loaded in this process
+    tags += ["vf.targets.AppProxy", "vf.targets.AppURI", "vf.targets.AppDaemon", "targets.AppProxy", "AppProxy"]
     for ns in sorted(CANARY_MODULES):
         for short in ("Error", "XError", "error", "OperationalError", "PyroError", "Exception", "URI"):
             tags.append(ns + "." + short)
